@@ -366,6 +366,15 @@ class IkeSa(object):
             self.log_error('Received a message with the wrong "INITIATOR" flag. Ignoring')
             return None
 
+        # once keys exist, only what the peer protected with them may reach the state machine. IKE_SA_INIT travels in
+        # the clear: the only thing it can still obtain is the stored response to a retransmitted IKE_SA_INIT request
+        if self.peer_crypto is not None and message.exchange_type == Message.Exchange.IKE_SA_INIT:
+            if message.is_request and message.message_id == self.peer_msg_id - 1:
+                self.log_warning('Retransmission detected. Sending last sent message')
+                return self.last_sent_response_data
+            self.log_error('Received an unprotected IKE_SA_INIT message after keys were derived. Ignoring')
+            return None
+
         if (message.exchange_type != Message.Exchange.IKE_SA_INIT
                 and (message.spi_i, message.spi_r) != (self.spi_i, self.spi_r)):
             self.log_error('Received a message with wrong SPI values. Expected: {}. Ignoring'
